@@ -288,6 +288,17 @@ var c13Witnesses = []string{
 	"SELECT v FROM m ORDER BY ASC", "SELECT v FROM m ORDER BY time DESC", "SELECT v FROM m LIMIT 9223372036854775807", "SELECT v::float + n::integer FROM m", "SELECT v::tag FROM m GROUP BY v::tag",
 	"SELECT count(v), top(v, 1) FROM m", "SELECT v FROM m WHERE time > now() + 9223372036854775807ns", "SELECT v FROM m WHERE now() - time > 1h", "SELECT v FROM m WHERE time > -1s",
 	"DELETE FROM m WHERE time > 10s / 0.5", "DROP SERIES WHERE time < now() - 10s / 0.1", "SHOW SERIES WHERE time > 10s / 0.5",
+	// regexes that expand to no literal or to odd literal lists
+	"SELECT v FROM m WHERE host =~ /^[^\\s\\S]$/", "SELECT v FROM m WHERE host !~ /^a[^\\w\\W]$/", "SELECT v FROM m WHERE host =~ /^[^\\x00-\\x{10FFFF}](a|b)$/", "SELECT v FROM m WHERE host =~ /^$/ OR host !~ /^()$/",
+	"SELECT v FROM m WHERE host =~ /^((?i)abc)$/", "SELECT v FROM m WHERE host =~ /^(a|[^\\d\\D])$/", "SELECT v FROM m WHERE host =~ /^[a-c][^\\s\\S][x-z]$/",
+	// date-shaped strings of which one, both or none is a date, under every comparison
+	"SELECT v FROM m WHERE '2000-01-01' != '2000-13-01'", "SELECT v FROM m WHERE '2000-13-01' != '2000-01-01'", "SELECT v FROM m WHERE '2000-02-30T00:00:00Z' <> '2000-01-01T00:00:00Z'",
+	"SELECT v FROM m WHERE '2000-01-01 00:00:61' != '2000-01-01'", "SELECT v FROM m WHERE '2000-13-01' = '2000-01-01'", "SELECT v FROM m WHERE '2000-01-01' = '2000-13-01'", "SELECT v FROM m WHERE '2000-13-01' != '2000-14-01'",
+	"SELECT v FROM m WHERE '2000-01-01' < '2000-13-01'", "SELECT v FROM m WHERE '2000-13-01' >= '2000-01-01'", "SELECT v FROM m WHERE '2000-01-01' - '2000-13-01' > 1h", "SELECT v FROM m WHERE '2000-01-01T00:00:00+02:00' < '2000-01-01 00:00:00'",
+	"SELECT v FROM m WHERE time > '2000-01-01' AND '2000-99-99' != '2000-01-01'", "SELECT v FROM m WHERE x = '2000-01-01' AND '2000-01-01' <> 'abc'",
+	// name queries on calls with tag arguments followed by more fields, names with format directives
+	"SELECT top(value, host, 2), other FROM cpu", "SELECT bottom(v, a, b, 3), x, y FROM cpu", "SELECT top(v, host, 1), top(v, host, 1) FROM m", "SELECT \"usage%\", \"usage%\" FROM m", "SELECT \"a%%\", \"a%%\", \"%d\" , \"%d\" FROM m",
+	"SELECT (a + b), (a + b) FROM m", "SELECT (v) FROM m", "SELECT host::tag, v::float FROM m WHERE host::tag = 'a' AND v::float > 5",
 }
 
 func propC13(o *out, r *rng, thorough bool) {
